@@ -248,7 +248,7 @@ func (fr *Frame) mapFrameCheck(st *State, m *Val, mi *mapInfo, pos token.Pos) {
 	if ok {
 		return
 	}
-	goal := tCmp(">", m.L[0], top.entry.allocTop)
+	goal := tCmp(">", m.L[0], fr.entryAllocTop())
 	for _, r := range rows {
 		goal = tOr(goal, tEq(m.L[0], r))
 	}
